@@ -613,4 +613,50 @@ Proof.
   - reflexivity.
 Qed.
 
+(** * uniqueness: the height and the shape are functions of the entries *)
+Lemma has_layer_down (l : seg) h h' : h' <= h -> has_layer l h -> has_layer l h'.
+Proof. intros Hle H. unfold has_layer in *. eapply Exists_impl; [|exact H]. intros x Hx. cbn in *. lia. Qed.
+
+Lemma big_down_le bf h h' len : (1 <= bf)%N -> h' <= h -> big bf h len -> big bf h' len.
+Proof. intros Hb Hle. induction Hle as [|h Hle IH]; [tauto|]. intros B. apply IH. apply big_down; assumption. Qed.
+
+Lemma hok_down bf (l : seg) h h' : (1 <= bf)%N -> h' <= h -> hok bf l h -> hok bf l h'.
+Proof.
+  intros Hb Hle [->|[H1 H2]]; [left; lia|]. destruct h' as [|h'']; [left; reflexivity|].
+  right. split; [eapply has_layer_down; eassumption|eapply big_down_le; eassumption].
+Qed.
+
+Lemma hrule_unique bf (l : seg) h1 h2 : (1 <= bf)%N -> hrule bf l h1 -> hrule bf l h2 -> h1 = h2.
+Proof.
+  intros Hb [Ok1 Nx1] [Ok2 Nx2].
+  destruct (Nat.lt_trichotomy h1 h2) as [Hlt|[Heq|Hgt]]; [|exact Heq|]; exfalso.
+  - apply Nx1. pose proof (hok_down bf l h2 (S h1) Hb ltac:(lia) Ok2) as [E|H]; [discriminate|exact H].
+  - apply Nx2. pose proof (hok_down bf l h1 (S h2) Hb ltac:(lia) Ok1) as [E|H]; [discriminate|exact H].
+Qed.
+
+Theorem canon_unique bf m1 m2 l :
+  canon bf m1 l -> canon bf m2 l ->
+  m_height _ _ m1 = m_height _ _ m2 /\ m_size _ _ m1 = m_size _ _ m2 /\
+  exists n1 n2, root_n (m_root _ _ m1) = Some n1 /\ root_n (m_root _ _ m2) = Some n2 /\ erase_n n1 = erase_n n2.
+Proof.
+  intros C1 C2.
+  assert (Hh : m_height _ _ m1 = m_height _ _ m2).
+  { apply (hrule_unique bf l); [pose proof (cn_bf _ _ _ C1); pose proof (cn_bfeq _ _ _ C1); lia| |].
+    - pose proof (cn_h _ _ _ C1) as H. rewrite (cn_bfeq _ _ _ C1) in H. exact H.
+    - pose proof (cn_h _ _ _ C2) as H. rewrite (cn_bfeq _ _ _ C2) in H. exact H. }
+  split; [exact Hh|]. split; [rewrite (cn_size _ _ _ C1), (cn_size _ _ _ C2); reflexivity|].
+  destruct (cn_root _ _ _ C1) as (n1 & Hn1 & He1). destruct (cn_root _ _ _ C2) as (n2 & Hn2 & He2).
+  exists n1, n2. split; [exact Hn1|]. split; [exact Hn2|]. rewrite He1, He2, Hh. reflexivity.
+Qed.
+
+(** the invariant determines the listing of the tree *)
+Theorem canon_to_list bf m l : canon bf m l -> to_list _ _ (m_root _ _ m) = l.
+Proof.
+  intros C. destruct (cn_root _ _ _ C) as (n & Hn & He).
+  destruct (m_root _ _ m) as [|c|h c|h] eqn:Er; cbn [root_n] in Hn; try discriminate.
+  - cbn [to_list]. symmetry. apply (root_nil_list _ _ _ C Er).
+  - inversion Hn; subst. cbn [to_list]. exact (canon_list _ _ _ He).
+  - inversion Hn; subst. cbn [to_list]. exact (canon_list _ _ _ He).
+Qed.
+
 End INV.
